@@ -148,7 +148,11 @@ class _LockingClock:
     def __init__(self, run):
         outer = run
 
-        class datetime(_dt.datetime):
+        class _Meta(type):
+            def __instancecheck__(cls, obj):
+                return isinstance(obj, _dt.datetime)
+
+        class datetime(_dt.datetime, metaclass=_Meta):
             @classmethod
             def now(cls, tz=None):
                 base = _dt.datetime(2030, 1, 1, tzinfo=tz)
